@@ -1,5 +1,6 @@
 import VerifModel.Base.Proto
 import VerifModel.Model.Scripts
+import VerifModel.Model.ScriptsRich
 import VerifModel.Spec.Scripts
 /-
   Driver ops for the helper scripts (C20).
@@ -101,8 +102,12 @@ def parseFile? (a : List String) : Option Parsed :=
               ens := fun t l s m => ea.getD ((((t * L + l) * S + s) * M) + m) .nan }, T, L, S⟩
   | _ => none
 
+/-- `ifile.variable.units.replace("$", "")`: the NetCDF reader wraps the units attribute in `$…$` for display and the
+scripts strip every dollar sign again — also those the attribute itself contains -/
+def outUnits (u : String) : String := u.replace "$" ""
+
 def showMeta (name units times leads : String) (ids lats lons elevs : Vec) : String :=
-  s!"name={name} units={units} times={times} leads={leads} ids={showVec ids} lats={showVec lats} lons={showVec lons} elevs={showVec elevs}"
+  s!"name={name} units={outUnits units} times={times} leads={leads} ids={showVec ids} lats={showVec lats} lons={showVec lons} elevs={showVec elevs}"
 
 def showVFile (f : VFile) : String :=
   showMeta f.name f.units (showInts f.times) (showRats f.leads) f.ids f.lats f.lons f.elevs
@@ -112,11 +117,13 @@ def storedPairs (itimes : List Int) (ileads : List Rat) (obs : Arr3) (s : Nat) :
   (List.range itimes.length).flatMap fun t => (List.range ileads.length).map fun l =>
     ((itimes.getD t 0 : Rat) + 3600 * ileads.getD l 0, obs.cell t l s)
 
-def handle (args : List String) : Option String :=
+def handleBase (args : List String) : Option String :=
   match args with
   | "acc" :: axis :: w :: ign :: file => do
       let axis ← if axis == "leadtime" then some Axis.leadtime
                  else if axis == "time" then some Axis.time else none
+      -- `-w` below 1 (0 or negative): "The accumulation window (-w) must be at least 1 timestep", exit 1
+      if (w.toInt?.map (fun v => decide (v < 1))).getD false then some "ERR" else
       let (w, ign) := (← parseW? w, ← parseBool? ign)
       let p ← parseFile? file
       some (match accumulateFile axis w ign p.file with
@@ -133,6 +140,8 @@ def handle (args : List String) : Option String :=
   | "e2p" :: thr :: qs :: pflag :: file => do
       let (thr, qs, pflag) := (← parseVec? thr, ← parseVec? qs, ← parseBool? pflag)
       let p ← parseFile? file
+      -- `-p` on a file without observations: "File is missing obs, and can therefore not compute PIT", exit 1
+      if pflag && p.file.obs.isNone then some "ERR" else
       let o := ens2probFile thr qs pflag p.file
       let cdf := if thr.isEmpty then "none" else showVec (flat4 p.T p.L p.S thr.length o.cdf)
       let x := if qs.isEmpty then "none" else showVec (flat4 p.T p.L p.S qs.length o.x)
@@ -206,5 +215,54 @@ def handle (args : List String) : Option String :=
         some (toString (Spec.Scripts.expand (storedPairs itimes ileads a 0) (ot + 3600 * ol)))
       | _, _ => none
   | _ => none
+
+/-- all ops of this topic: the plain ones and `pres` (rich files) -/
+def handle (args : List String) : Option String :=
+  match args with
+  -- rich files: `pres <script> <options…> FILE(13) pit thr cdf qlv x other x0 x1 tfmt`
+  | "pres" :: k :: rest => do
+      let nopt := if k == "acc" then 3 else if k == "win" then 2 else if k == "e2p" then 3 else if k == "exp" then 4 else 99
+      let opts := rest.take nopt
+      let file := (rest.drop nopt).take 13
+      let ex := (rest.drop (nopt + 13))
+      match ex with
+      | [_pit, _thr, _cdf, _qlv, _x, _other, x0, x1, _tfmt] =>
+        let optXR (t : String) : Option XR := if t == "-" then none else parseXR? t
+        let e : Extras := { x0 := optXR x0, x1 := optXR x1 }      -- the rest is dropped by every script (`carry`)
+        let script := if k == "acc" then Script.accumulate else if k == "win" then .window
+                      else if k == "e2p" then .ens2prob else .expandverif
+        let c := carry script e
+        let showO (v : Option XR) : String := match v with | some x => toString x | none => "none"
+        let tail := s!" other=none x0={showO c.x0} x1={showO c.x1}"
+        if k == "acc" || k == "win" then do
+          let base ← handleBase ((if k == "acc" then "acc" else "win") :: opts ++ file)
+          if base.startsWith "ERR" then some base
+          else some (base ++ " ens=none thr=none cdf=none qlv=none x=none pit=none" ++ tail)
+        else if k == "e2p" then do
+          let base ← handleBase ("e2p" :: opts ++ file)
+          if base.startsWith "ERR" then some base else some (base.replace " thr=" " ens=none thr=" ++ tail)
+        else if k == "exp" then
+          match opts with
+          | [inits, oleads, t, q] => do
+            if oleads == "-" then some "ERR"       -- `-lt` is a required option: argparse stops with its usage message
+            else
+              let base ← handleBase (["exp", inits, oleads] ++ file)
+              if base.startsWith "ERR" then some base
+              else
+                let (t, q) := (← parseVec? t, ← parseVec? q)
+                let p ← parseFile? file
+                let nt := ((base.splitOn " times=").getD 1 "").splitOn " " |>.headD "" |>.splitOn "," |>.length
+                let nl := (← parseVec? oleads).length
+                let cells := nt * nl * p.S
+                let stubs := expandStubs cells t q
+                let showV (v : Option Var4) (c : Bool) : String := match v with
+                  | some w => showVec (if c then w.coord else w.data)
+                  | none => "none"
+                let fc := showVec (List.replicate cells XR.nan)
+                some (base ++ s!" fcst={fc} ens=none thr={showV stubs.1 true} cdf={showV stubs.1 false} qlv={showV stubs.2 true} x={showV stubs.2 false} pit=none" ++ tail)
+          | _ => none
+        else none
+      | _ => none
+  | _ => handleBase args
 
 end VerifModel.Driver.Scripts
